@@ -522,64 +522,66 @@ Definition parse_rows (rows : list (list str)) : option election :=
 (* ------------------------------------------------------------------------------------------- *)
 (* Writer (election_as_pabulib_string before csv.writer; natsort of the rows not modelled)        *)
 (* ------------------------------------------------------------------------------------------- *)
-Definition put_mandatory (im : dict) (k : str) (m : dict) : dict :=
-  match lookup k im with
-  | Some v => dict_set k v m
-  | None => dict_set k ($"Auto-filled " ++ k) m
-  end.
-Definition put_optional (im : dict) (k : str) (m : dict) : dict :=
-  match lookup k im with Some v => dict_set k v m | None => m end.
+(* The writer fills a fresh dictionary by assignments  meta[key] = value  under pairwise distinct constant keys
+   (so each assignment appends), some of them conditional.  [slots] lists the keys in assignment order with
+   the value assigned, None when the assignment does not happen; [compact] keeps the assignments that happen. *)
+Definition mandatory_value (im : dict) (k : str) : str :=
+  match lookup k im with Some v => v | None => $"Auto-filled " ++ k end.
 (* `if profile.legal_x:` -- written when present and non-zero *)
-Definition put_nat (k : str) (o : option nat) (m : dict) : dict :=
-  match o with Some (S n) => dict_set k (show_nat (S n)) m | _ => m end.
-Definition put_num (k : str) (o : option Q) (m : dict) : dict :=
-  match o with Some q => if Qzero_b q then m else dict_set k (show_num q) m | None => m end.
+Definition nat_slot (o : option nat) : option str :=
+  match o with Some (S n) => Some (show_nat (S n)) | _ => None end.
+Definition num_slot (o : option Q) : option str :=
+  match o with Some q => if Qzero_b q then None else Some (show_num q) | None => None end.
+
+Definition num_ballots (bs : list ballot) : nat := fold_right (fun b n => (b_mult b + n)%nat) 0%nat bs.
+
+Definition type_slots (e : election) : list (str * option str) :=
+  let im := e_meta e in
+  match e_vtype e with
+  | Approval =>
+      [($"min_sum_cost", num_slot (e_min_cost e)); ($"max_sum_cost", num_slot (e_max_cost e))]
+  | Cumulative =>
+      [($"min_points", num_slot (e_min_score e)); ($"max_points", num_slot (e_max_score e));
+       ($"min_sum_points", num_slot (e_min_total e)); ($"max_sum_points", num_slot (e_max_total e))]
+  | Scoring =>
+      [($"min_points", num_slot (e_min_score e)); ($"max_points", num_slot (e_max_score e));
+       ($"default_score", lookup $"default_score" im)]
+  | Ordinal => [($"scoring_fn", lookup $"scoring_fn" im)]
+  end.
+
+Definition slots (e : election) : list (str * option str) :=
+  let im := e_meta e in
+  [($"description", Some (mandatory_value im $"description"));
+   ($"country", Some (mandatory_value im $"country"));
+   ($"unit", Some (mandatory_value im $"unit"));
+   ($"subunit", lookup $"subunit" im);
+   ($"instance", Some (mandatory_value im $"instance"));
+   ($"num_projects", Some (show_nat (List.length (e_projects e))));
+   ($"num_votes", Some (show_nat (num_ballots (e_ballots e))));
+   ($"budget", Some (show_num (e_budget e)));
+   ($"vote_type", Some (vtype_name (e_vtype e)));
+   ($"rule", Some (mandatory_value im $"rule"));
+   ($"date_begin", lookup $"date_begin" im);
+   ($"date_end", lookup $"date_end" im);
+   ($"date_language", lookup $"date_language" im);
+   ($"date_edition", lookup $"date_edition" im);
+   ($"date_district", lookup $"date_district" im);
+   ($"date_comment", lookup $"date_comment" im);
+   ($"min_length", nat_slot (e_min_len e));
+   ($"max_length", nat_slot (e_max_len e))]
+  ++ type_slots e.
+
+Definition compact (sl : list (str * option str)) : dict :=
+  flat_map (fun ko => match snd ko with Some v => [(fst ko, v)] | None => [] end) sl.
+
+(* for key, value in instance.meta.items(): if key not in meta: meta[key] = value *)
 Fixpoint put_rest (im : dict) (m : dict) : dict :=
   match im with
   | [] => m
   | (k, v) :: r => put_rest r (if has_key k m then m else m ++ [(k, v)])
   end.
 
-Definition num_ballots (bs : list ballot) : nat := fold_right (fun b n => (b_mult b + n)%nat) 0%nat bs.
-
-(* the limit entries (and the two type-specific optional entries) *)
-Definition write_limits (e : election) (m : dict) : dict :=
-  let im := e_meta e in
-  let m := put_nat $"min_length" (e_min_len e) m in
-  let m := put_nat $"max_length" (e_max_len e) m in
-  match e_vtype e with
-  | Approval =>
-      put_num $"max_sum_cost" (e_max_cost e) (put_num $"min_sum_cost" (e_min_cost e) m)
-  | Cumulative =>
-      put_num $"max_sum_points" (e_max_total e) (put_num $"min_sum_points" (e_min_total e)
-        (put_num $"max_points" (e_max_score e) (put_num $"min_points" (e_min_score e) m)))
-  | Scoring =>
-      put_optional im $"default_score"
-        (put_num $"max_points" (e_max_score e) (put_num $"min_points" (e_min_score e) m))
-  | Ordinal => put_optional im $"scoring_fn" m
-  end.
-
-Definition write_meta (e : election) : dict :=
-  let im := e_meta e in
-  let m := [] in
-  let m := put_mandatory im $"description" m in
-  let m := put_mandatory im $"country" m in
-  let m := put_mandatory im $"unit" m in
-  let m := put_optional im $"subunit" m in
-  let m := put_mandatory im $"instance" m in
-  let m := dict_set $"num_projects" (show_nat (List.length (e_projects e))) m in
-  let m := dict_set $"num_votes" (show_nat (num_ballots (e_ballots e))) m in
-  let m := dict_set $"budget" (show_num (e_budget e)) m in
-  let m := dict_set $"vote_type" (vtype_name (e_vtype e)) m in
-  let m := put_mandatory im $"rule" m in
-  let m := put_optional im $"date_begin" m in
-  let m := put_optional im $"date_end" m in
-  let m := put_optional im $"date_language" m in
-  let m := put_optional im $"date_edition" m in
-  let m := put_optional im $"date_district" m in
-  let m := put_optional im $"date_comment" m in
-  let m := write_limits e m in
-  put_rest im m.
+Definition write_meta (e : election) : dict := put_rest (e_meta e) (compact (slots e)).
 
 (* the per-project dictionary of the writer *)
 Definition project_dict (p : project) : dict :=
@@ -723,7 +725,7 @@ Definition wf_meta (e : election) : bool :=
   && forallb (fun kv => stripped (fst kv) && not_keyword (fst kv) && stripped (snd kv)) m
   && forallb (fun k => match lookup k m with
                        | None => true
-                       | Some t => has_key k (write_limits e []) || stale_ok e k t
+                       | Some t => has_key k (compact (slots e)) || stale_ok e k t
                        end) limit_keys.
 
 Definition wf_list_items (l : list str) : bool :=
